@@ -29,7 +29,7 @@ structure Diff (α : Type) where
 
 section
 variable {α : Type} [Add α] [Sub α] [Mul α] [Div α] [Neg α] [OfNat α 0] [OfNat α 1]
-  [OfScientific α] [Max α] [Transc α]
+  [OfScientific α] [Max α] [LT α] [DecidableLT α] [Transc α]
 
 /-- What the call operator evaluates on one row, given the family's `_mean` on one row
     (`normalize=False`, `logscale=False`: the defaults autodiff sees). -/
@@ -57,6 +57,49 @@ def Deriv.hessian (D : Diff α) (f : List α → α) (X : List (List α)) : List
 def Deriv.hld (D : Diff α) (slogdet : List (List α) → α × α) (f : List α → α) (X : List (List α)) :
     List (α × α) :=
   X.map fun x => slogdet (Deriv.hessRow D f x)
+
+/-! ### several output columns (`weights` of shape `(n, k)`, e.g. `FunctionEstimator` on a 2-D `y`)
+
+The differentiated function then returns `k` values per row.  `gradient` / `hessian` reshape with
+`shape[::2]` to `(n, k, d)` / `(n, k, d, d)`; `hessian_log_determinant` reshapes the row Hessian to one
+`(d, d)` block per output column (`reshape((-1, d, d))`), takes `slogdet` of every block and returns
+`(n, k)` pairs — except that a single block is returned unbatched (`if hess.shape[0] == 1: sign[0]`),
+so that scalar outputs AND one-column outputs give `(n,)`. -/
+
+/-- The value(s) the call operator returns per row: a scalar (1-D `weights`) or `k` columns. -/
+inductive Outputs (α : Type) where
+  | scalar (f : List α → α)
+  | columns (fs : List (List α → α))
+
+def Outputs.funs : Outputs α → List (List α → α)
+  | .scalar f => [f]
+  | .columns fs => fs
+
+/-- Result of `hessian_log_determinant` for one row: one pair, or one pair per output column. -/
+inductive HldRow (α : Type) where
+  | single (p : α × α)
+  | perColumn (ps : List (α × α))
+
+/-- `gradient` for `k` output columns: shape `(n, k, d)`. -/
+def Deriv.gradientCols (D : Diff α) (fs : List (List α → α)) (X : List (List α)) : List (List (List α)) :=
+  X.map fun x => fs.map fun f => D.jac f x
+
+/-- `hessian` for `k` output columns: shape `(n, k, d, d)`. -/
+def Deriv.hessianCols (D : Diff α) (fs : List (List α → α)) (X : List (List α)) :
+    List (List (List (List α))) :=
+  X.map fun x => fs.map fun f => Deriv.hessRow D f x
+
+/-- One row of `hessian_log_determinant` as patched: `reshape((-1, d, d))`, `slogdet` per block, a
+    single block returned unbatched. -/
+def Deriv.hldRow (D : Diff α) (slogdet : List (List α) → α × α) (o : Outputs α) (x : List α) : HldRow α :=
+  match o.funs with
+  | [f] => .single (slogdet (Deriv.hessRow D f x))
+  | fs => .perColumn (fs.map fun f => slogdet (Deriv.hessRow D f x))
+
+/-- `derivatives.hessian_log_determinant(function, x)` for any output form. -/
+def Deriv.hldOut (D : Diff α) (slogdet : List (List α) → α × α) (o : Outputs α) (X : List (List α)) :
+    List (HldRow α) :=
+  X.map (Deriv.hldRow D slogdet o)
 
 /-! ### `Predictor` / `ExpPredictor`: all three methods differentiate `self.__call__` -/
 
